@@ -252,4 +252,65 @@ example : failure (rfRun (evalRf (.obj [(.str "deep", .err)])) noInterp id rf1 e
     (rfRun (evalRf (.obj [(.str "deep", .err)])) noInterp id rf1 env1).outs.length = 0 := by
   decide
 
+/-! ### every site is reached by some run -/
+
+private def vfFull : VF := ⟨true, true, some [("spec", .node [("fromVf", .leaf 0)])]⟩
+
+private def rfFull : RF :=
+  { hasPre := true, hasLocals := true, namespaced := true, readonly := false, deleteIfExists := false,
+    owned := true, template := .ref,
+    overlays := [.inline true [("spec", .node [("y", .leaf 0)])], .ref true true vfFull],
+    createEnabled := true, createOverlay := some [("spec", .node [("c", .leaf 0)])], update := .patch,
+    hasPost := true, hasReturn := true }
+
+private def envAbsent : Env :=
+  { live := none, templates := fun _ => some (.obj [(.str "spec", .obj [])]), ownerRef := .obj [(.str "uid", .str "u")],
+    ownerSameNamespace := true, isMatch := fun _ _ => false, ownerReffed := false,
+    apiVersion := "v1", kind := "K", text := fun _ => "name", render := fun _ => "{}" }
+
+private def envMatch : Env := { envAbsent with live := some (.obj [(.str "spec", .obj [])]), isMatch := fun _ _ => true, ownerReffed := true }
+
+private def evalAll : Oracle
+  | .rfPre | .rfPost | .overlayRef _ .preconditions => .val (.arr [])
+  | .rfLocals | .overlayRef _ .locals | .overlayInputs _ => .val (.obj [])
+  | .apiConfig => .val (.obj [(.str "name", .str "n"), (.str "namespace", .str "ns")])
+  | .templateName => .val (.str "tmpl")
+  | .overlaySkipIf _ => .val (.bool false)
+  | .overlay _ | .overlayRef _ .returnValue | .createOverlay => .val (.arr [.int 1])
+  | .rfReturn => .val (.obj [(.str "v", .int 1)])
+  | _ => .raised
+
+/-- a create run reaches every site up to the create overlay … -/
+example : (rfRun evalAll noInterp id rfFull envAbsent).evals.map (·.1) =
+    [.rfPre, .rfLocals, .apiConfig, .templateName, .overlaySkipIf 0, .overlay 0, .overlaySkipIf 1,
+     .overlayInputs 1, .overlayRef 1 .preconditions, .overlayRef 1 .locals, .overlayRef 1 .returnValue,
+     .createOverlay] := by decide
+
+/-- … and a run on a matching object reaches postconditions and return -/
+example : (rfRun evalAll noInterp id rfFull envMatch).evals.map (·.1) =
+    [.rfPre, .rfLocals, .apiConfig, .templateName, .overlaySkipIf 0, .overlay 0, .overlaySkipIf 1,
+     .overlayInputs 1, .overlayRef 1 .preconditions, .overlayRef 1 .locals, .overlayRef 1 .returnValue,
+     .rfPost, .rfReturn] := by decide
+
+private def stepFE : Step :=
+  { deps := [], hasInputs := true, hasSkipIf := true, forEach := some "item",
+    logic := .switch (fun _ => some (.vf ⟨false, false, some [("v", .leaf 0)]⟩)), hasState := true }
+
+/-- the second iteration's return holds an error object: the step is a PermFail, all iterations ran,
+    no state is evaluated -/
+private def evalFE : Oracle
+  | .stepInputs => .val (.obj [])
+  | .stepSkipIf => .val (.bool false)
+  | .forEach => .val (.arr [.int 1, .int 2, .int 3])
+  | .iter _ .switchOn => .val (.str "a")
+  | .iter 1 (.vf .returnValue) => .val (.arr [.obj [(.str "k", .err)]])
+  | .iter _ (.vf .returnValue) => .val (.arr [.int 1])
+  | .state => .val (.obj [(.str "s", .int 1)])
+  | _ => .raised
+
+example : failure (stepRun evalFE noInterp id stepFE).res = some (.permFail (.iter 1 (.vf .returnValue)) .evalError) ∧
+    (stepRun evalFE noInterp id stepFE).evals.map (·.1) =
+      [.stepInputs, .stepSkipIf, .forEach, .iter 0 .switchOn, .iter 0 (.vf .returnValue), .iter 1 .switchOn,
+       .iter 1 (.vf .returnValue), .iter 2 .switchOn, .iter 2 (.vf .returnValue)] := by decide
+
 end Koreo.C10
